@@ -18,6 +18,7 @@ evaluating; a definite mismatch is a finding, an unresolved (Any) value at an ar
 """
 import re
 from .core import RuleResult
+from .facts import short_path
 
 HOOK = "algorithms::hook::DiffHook"
 ANY = ("?",)
@@ -377,8 +378,8 @@ FIELD_SIG = {
 
 # same-side rows: callee suffix -> argument positions (0-based incl. receiver) that must share a side
 SAME_SIDE = {
-    "utils::SliceRemapper::<'x, T>::new": [0, 1],
-    "text::inline::MultiLookup::<'bufs, 's, T>::get_original_slices": [0],
+    "utils::SliceRemapper::new": [0, 1],
+    "text::inline::MultiLookup::get_original_slices": [0],
     "text::inline::push_values": [0, 3],
     "algorithms::utils::unique": [0, 1],
     "algorithms::myers::split_at": [0, 1],
@@ -394,8 +395,8 @@ BOTH_INDEX_HELPERS = ("types::DiffOp::shift_left", "types::DiffOp::shift_right",
 PARAM_SIG = {
     ("common::group_diff_ops", "n"): S(LEN),
     ("algorithms::capture::Capture::into_grouped_ops", "n"): S(LEN),
-    ("text::TextDiff::<'old, 'new, 'bufs, T>::grouped_ops", "n"): S(LEN),
-    ("udiff::UnifiedDiff::<'diff, 'old, 'new, 'bufs, T>::context_radius", "n"): S(LEN),
+    ("text::TextDiff::grouped_ops", "n"): S(LEN),
+    ("udiff::UnifiedDiff::context_radius", "n"): S(LEN),
     ("udiff::unified_diff", "n"): S(LEN),
 }
 
@@ -531,8 +532,8 @@ class FnEval:
             elif is_hook_impl and fn.name in HOOK_SIG and 1 <= i <= len(HOOK_SIG[fn.name]) and p["ty"] == "usize":
                 k, s = HOOK_SIG[fn.name][i - 1]
                 av = S(k, s, own_frame if k == POS else None)
-            elif av is None and (fn.path, nm) in PARAM_SIG:
-                av = PARAM_SIG[(fn.path, nm)]
+            elif av is None and (fn.spath, nm) in PARAM_SIG:
+                av = PARAM_SIG[(fn.spath, nm)]
             elif av is None:
                 av = self.seed_for(nm, p["ty"])
                 if av is not None and av[0] == "Q" and name_side(nm) in self.ranged_sides:
@@ -1330,7 +1331,7 @@ class FnEval:
         is_hook_impl = bool(g.impl and g.impl.get("trait") == HOOK)
         arg_exprs = ([e.get("recv")] if e.get("k") == "mcall" else []) + list(e.get("args", []))
         self.check_lockstep(e, arg_exprs)
-        if self.report and g.path in BOTH_INDEX_HELPERS and len(allv) >= 2:
+        if self.report and g.spath in BOTH_INDEX_HELPERS and len(allv) >= 2:
             v = allv[1]
             ok = is_s(v) and v[1] in (LEN, ZERO, CONST) and v[2] in ("B", None) and not (v[1] == LEN and v[2] is None and False)
             if is_s(v) and v[1] == LEN and v[2] in ("O", "N"):
@@ -1350,8 +1351,8 @@ class FnEval:
         for i, p in enumerate(params):
             nm = p["pat"].get("name")
             sd = ev.seed_for(nm, p["ty"]) if nm != "self" else None
-            if sd is None and (g.path, nm) in PARAM_SIG:
-                sd = PARAM_SIG[(g.path, nm)]
+            if sd is None and (g.spath, nm) in PARAM_SIG:
+                sd = PARAM_SIG[(g.spath, nm)]
             seeds.append(sd)
             if sd is None and nm != "self" and _relevant_ty(p["ty"]):
                 unseeded_relevant = True
@@ -1814,7 +1815,7 @@ def _short(p):
 
 
 def _strip_generics(p):
-    return p
+    return short_path(p)
 
 
 def _head(tyj):
@@ -1941,19 +1942,19 @@ def _acc_original_slices(ev, allv, e):
 ACCESSORS = {
     "algorithms::utils::common_prefix_len": _acc_len_both,
     "algorithms::utils::common_suffix_len": _acc_len_both,
-    "text::inline::MultiLookup::<'bufs, 's, T>::get_original_slices": _acc_original_slices,
+    "text::inline::MultiLookup::get_original_slices": _acc_original_slices,
     "algorithms::utils::unique": _acc_unique,
-    "algorithms::utils::UniqueItem::<'_, Idx>::original_index": _acc_original_index,
-    "text::inline::MultiLookup::<'bufs, 's, T>::new": _acc_multilookup_new,
+    "algorithms::utils::UniqueItem::original_index": _acc_original_index,
+    "text::inline::MultiLookup::new": _acc_multilookup_new,
     "types::DiffOp::as_tag_tuple": _acc_tagtuple,
     "types::DiffOp::old_range": _acc_range("O"),
     "types::DiffOp::new_range": _acc_range("N"),
-    "algorithms::utils::IdentifyDistinct::<Int>::old_range": _acc_range("O"),
-    "algorithms::utils::IdentifyDistinct::<Int>::new_range": _acc_range("N"),
-    "algorithms::utils::IdentifyDistinct::<Int>::old_lookup": _acc_seq("O", True),
-    "algorithms::utils::IdentifyDistinct::<Int>::new_lookup": _acc_seq("N", True),
-    "text::TextDiff::<'old, 'new, 'bufs, T>::old_slices": _acc_seq("O", False),
-    "text::TextDiff::<'old, 'new, 'bufs, T>::new_slices": _acc_seq("N", False),
+    "algorithms::utils::IdentifyDistinct::old_range": _acc_range("O"),
+    "algorithms::utils::IdentifyDistinct::new_range": _acc_range("N"),
+    "algorithms::utils::IdentifyDistinct::old_lookup": _acc_seq("O", True),
+    "algorithms::utils::IdentifyDistinct::new_lookup": _acc_seq("N", True),
+    "text::TextDiff::old_slices": _acc_seq("O", False),
+    "text::TextDiff::new_slices": _acc_seq("N", False),
 }
 
 
